@@ -88,7 +88,7 @@ macro_rules! apply_step_opts {
 fn run_draws<M: nuts_rs::Math, C: Chain<M>>(
     chain: &mut C,
     total: u64,
-    hook: impl Fn(&C) -> J,
+    mut hook: impl FnMut(&C) -> J,
     logp_log: &std::sync::Arc<std::sync::Mutex<EvalLog>>,
 ) -> Vec<J> {
     let mut out = vec![];
@@ -132,6 +132,8 @@ fn run_draws<M: nuts_rs::Math, C: Chain<M>>(
                     "mass_matrix_stds": stat_vec(&all, "mass_matrix_stds"),
                     "mass_matrix_eigvals": stat_vec(&all, "mass_matrix_eigvals"),
                     "num_eigenvalues": stat_i64(&all, "num_eigenvalues"),
+                    "div_start": stat_vec(&all, "divergence_start"),
+                    "div_start_grad": stat_vec(&all, "divergence_start_gradient"),
                     "flow_updates": after_updates - before_updates,
                     "evals": logp_log.lock().unwrap().count,
                     "pos_bits": pos.iter().map(|x| x.to_bits().to_string()).collect::<Vec<_>>(),
@@ -156,6 +158,35 @@ fn stat_vec(stats: &[(&str, Option<nuts_rs::Value>)], name: &str) -> Option<Vec<
     })
 }
 
+type M = CpuMath<TestLogp>;
+
+fn bits_vec(v: &[f64]) -> Vec<String> {
+    v.iter().map(|x| x.to_bits().to_string()).collect()
+}
+
+/// Content tie of C09 (diagonal presets): the point the chain is at (what the DrawGradCollector
+/// hands to the mass-matrix estimators when the draw is good) and the diagonal transformation
+/// that is installed right now.
+fn content_json(
+    p: nuts_rs::verif::VerifPoint,
+    t: (Vec<f64>, Vec<f64>, Vec<f64>, f64, i64),
+) -> J {
+    json!({
+        "x": bits_vec(&p.untransformed_position),
+        "g": bits_vec(&p.untransformed_gradient),
+        "idx": p.index_in_trajectory,
+        "stds": bits_vec(&t.0),
+        "inv_stds": bits_vec(&t.1),
+        "mean": bits_vec(&t.2),
+        "logdet": bits(t.3),
+        "id": t.4,
+    })
+}
+
+fn no_content<C>(_c: &C, _aux: &mut M) -> J {
+    J::Null
+}
+
 fn adapt_state_json(s: Option<(u8, [f64; 4], u64)>) -> J {
     match s {
         None => J::Null,
@@ -164,10 +195,16 @@ fn adapt_state_json(s: Option<(u8, [f64; 4], u64)>) -> J {
 }
 
 macro_rules! run_global {
-    ($settings:expr, $case:expr, $logp:expr) => {{
+    ($settings:expr, $case:expr, $logp:expr) => {
+        run_global!($settings, $case, $logp, no_content)
+    };
+    ($settings:expr, $case:expr, $logp:expr, $probe:expr) => {{
         let settings = $settings;
         let case = $case;
         let logp: TestLogp = $logp;
+        let probe = $probe;
+        let want_content = jb(case, "content", false);
+        let mut aux = CpuMath::new(TestLogp::std_normal(logp.dim));
         let log = logp.log.clone();
         let total = settings.num_tune + settings.num_draws;
         let dim = logp.dim;
@@ -189,6 +226,7 @@ macro_rules! run_global {
                         let sched1 = chain.verif_strategy().verif_schedule_state().to_vec();
                         let step0 = chain.verif_hamiltonian().step_size();
                         let evals_init = log.lock().unwrap().count;
+                        let content_init = if want_content { probe(&chain, &mut aux) } else { J::Null };
                         let draws = run_draws(
                             &mut chain,
                             total,
@@ -196,13 +234,15 @@ macro_rules! run_global {
                                 json!({
                                     "sched": c.verif_strategy().verif_schedule_state().to_vec(),
                                     "adapt": adapt_state_json(c.verif_strategy().verif_step_size().verif_adapt_state()),
+                                    "content": if want_content { probe(c, &mut aux) } else { J::Null },
                                 })
                             },
                             &log,
                         );
                         let fatal = log.lock().unwrap().fatal_hits;
                         json!({"id": case["id"], "new_chain":"ok", "set_position":"ok", "sched_new": sched0,
-                               "sched_init": sched1, "step_init": bits(step0), "evals_init": evals_init, "fatal_hits": fatal, "draws": draws})
+                               "sched_init": sched1, "step_init": bits(step0), "evals_init": evals_init, "fatal_hits": fatal,
+                               "content_init": content_init, "draws": draws})
                     }
                 }
             }
@@ -262,8 +302,14 @@ fn run_case(case: &J) -> J {
             s.max_energy_error = jf(case, "max_energy_error", s.max_energy_error);
             s.adapt_options.mass_matrix_options.store_mass_matrix = jb(case, "store_mass_matrix", false);
             s.adapt_options.mass_matrix_options.use_grad_based_estimate = jb(case, "use_grad_based_estimate", true);
+            s.store_divergences = jb(case, "store_divergences", s.store_divergences);
             apply_euclid_opts!(s, case);
-            run_global!(s, case, logp)
+            run_global!(s, case, logp, |c: &<DiagNutsSettings as Settings>::Chain<M>, aux: &mut M| {
+                content_json(
+                    c.verif_state().point().verif_data(aux),
+                    c.verif_hamiltonian().transformation().verif_params(aux),
+                )
+            })
         }
         "lowrank_nuts" => {
             let mut s = LowRankNutsSettings::default();
@@ -298,8 +344,16 @@ fn run_case(case: &J) -> J {
             s.num_draws = num_draws;
             s.step_size = jf(case, "fixed_step", 0.25);
             s.dynamic_step_size = jb(case, "dynamic_step_size", s.dynamic_step_size);
+            s.adapt_options.mass_matrix_options.store_mass_matrix = jb(case, "store_mass_matrix", false);
+            s.adapt_options.mass_matrix_options.use_grad_based_estimate = jb(case, "use_grad_based_estimate", true);
+            s.store_divergences = jb(case, "store_divergences", s.store_divergences);
             apply_euclid_opts!(s, case);
-            run_global!(s, case, logp)
+            run_global!(s, case, logp, |c: &<DiagMclmcSettings as Settings>::Chain<M>, aux: &mut M| {
+                content_json(
+                    c.verif_state().point().verif_data(aux),
+                    c.verif_hamiltonian().transformation().verif_params(aux),
+                )
+            })
         }
         "lowrank_mclmc" => {
             let mut s = LowRankMclmcSettings::default();
